@@ -996,6 +996,9 @@ REPO_DATA = __import__("common").REPO + "/data"
 SEARCH_VALUES = ["ক", "্", "ি", "া", "ঁ", "র", "্য", "ৄ", "ে", "আ", "\u200c", "\u200d", "ু"]
 
 
+_SEARCH_CACHE = {}
+
+
 def native_session_search(v):
     """Try all key histories of length <= 3 over a small alphabet of layout values (same options as the
     counterexample), followed by the counterexample's event pattern; look for the violated clause natively."""
@@ -1030,7 +1033,11 @@ def native_session_search(v):
         scs.append({"steps": steps + tail_a})
         if ev["op"] == "backspace" and combo:
             scs.append({"steps": steps + tail_b})
-    res = run_replay_parallel(scs, timeout=1200)
+    ck_ = json.dumps([opts, lay, ev], sort_keys=True, ensure_ascii=False)
+    if ck_ not in _SEARCH_CACHE:
+        _SEARCH_CACHE.clear()       # one entry: consecutive clause groups of one event share it
+        _SEARCH_CACHE[ck_] = run_replay_parallel(scs, timeout=1200)
+    res = _SEARCH_CACHE[ck_]
     for sc, r in zip(scs, res):
         rr = r["results"]
         if r.get("crashed"):
